@@ -557,6 +557,11 @@ func (fs *fileSystem) Rename(oldname, newname string) error {
 			// oldinode cannot become a descendant of itself.
 			return oldinode, ErrInvalidArgument
 		}
+		if newdirf.inode == olddirf.inode && newname == oldname {
+			// Renaming a file or directory onto itself is a
+			// no-op (returning nil here would delete it).
+			return oldinode, nil
+		}
 		if oldinode.FS() != cfs && newdirf.inode != olddirf.inode {
 			// moving a mount point to a different parent
 			// is not (yet) supported.
